@@ -45,6 +45,23 @@ fn check(p: &APacket, case: &mut Case) -> Result<(), Fail> {
     let back = parse(&bytes)?.map_err(|e| Fail::new("c02:unparseable", format!("output of build_bytes_vec rejected: {:?} ({} bytes: {})", e, bytes.len(), hex(&bytes[..bytes.len().min(200)]))))?;
     let o = lib("observe", || observe(&back))?;
     ensure!(o == *p, "c02:mismatch", "parsed packet differs: {}", diff(p, &o));
+    // "Build then parse" also for a packet that has been used before: serialised (both ways) once already, and a
+    // clone whose answers were taken out, serialised without them, and put back in the same order
+    if p.id % 4 == 1 {
+        case.class("used-before");
+        let _ = lib("build_bytes_vec_compressed", || pk.build_bytes_vec_compressed())?;
+        let again = lib("build_bytes_vec", || pk.build_bytes_vec())?.map_err(|e| Fail::new("c02:build-failed", format!("second build_bytes_vec: {:?}", e)))?;
+        let o2 = reparse(&again, "c02:unparseable", "the second output of build_bytes_vec for the same packet")?;
+        ensure!(o2 == *p, "c02:mismatch", "the second serialisation of the same packet parses differently: {}", diff(p, &o2));
+        let mut edited = pk.clone();
+        let taken: Vec<_> = edited.answers.drain(..).collect();
+        let _ = lib("build_bytes_vec", || edited.build_bytes_vec())?;
+        let _ = lib("build_bytes_vec_compressed", || edited.build_bytes_vec_compressed())?;
+        edited.answers.extend(taken);
+        let third = lib("build_bytes_vec", || edited.build_bytes_vec())?.map_err(|e| Fail::new("c02:build-failed", format!("build_bytes_vec of a clone whose answers were taken out and put back: {:?}", e)))?;
+        let o3 = reparse(&third, "c02:unparseable", "the output for a clone whose answers were taken out and put back")?;
+        ensure!(o3 == *p, "c02:mismatch", "a clone whose answers were taken out, serialised without them and put back parses differently: {}", diff(p, &o3));
+    }
     Ok(())
 }
 
